@@ -35,7 +35,7 @@ type PoissonDistribution struct {
 
 func NewPoissonDistribution(lambda Scalar) (*PoissonDistribution, error) {
 
-  if lambda.GetFloat64() <= 0.0 {
+  if !(lambda.GetFloat64() > 0.0) {
     return nil, fmt.Errorf("invalid parameter")
   }
 
